@@ -6,6 +6,7 @@ mod ns;
 pub mod parse;
 mod source;
 mod pkgname;
+mod asyncfilter;
 
 fn main() {
     let engine = std::env::args().nth(1).expect("engine");
@@ -14,6 +15,7 @@ fn main() {
         "parse" => parse::run_case,
         "source" => source::run_case,
         "pkgname" => pkgname::run_case,
+        "asyncfilter" => asyncfilter::run_case,
         other => panic!("unknown engine {other}"),
     };
     let stdin = io::stdin();
